@@ -50,9 +50,10 @@ func (c c06Cfg) String() string {
 }
 
 type c06Obs struct {
-	recs []zone.Rec
-	prob []string // per record: "" or why the record could not be read abstractly
-	err  error
+	recs  []zone.Rec
+	prob  []string // per record: "" or why the record could not be read abstractly
+	oprob []string // per record: "" or why the owner is not an absolute name
+	err   error
 }
 
 // c06Unescape reads a presentation string with \DDD and \X escapes into octets.
@@ -82,7 +83,7 @@ func c06Unescape(s string) ([]byte, bool) {
 	return o, true
 }
 
-func c06FromRR(rr dns.RR) (rec zone.Rec, prob string) {
+func c06FromRR(rr dns.RR) (rec zone.Rec, prob, oprob string) {
 	h := rr.Header()
 	rec = zone.Rec{TTL: h.Ttl, Class: h.Class, Type: h.Rrtype}
 	name := func(s string) [][]byte {
@@ -94,6 +95,7 @@ func c06FromRR(rr dns.RR) (rec zone.Rec, prob string) {
 		return p.Labels
 	}
 	rec.Owner = name(h.Name)
+	oprob, prob = prob, ""
 	switch v := rr.(type) {
 	case *dns.A:
 		ip := v.A.To4()
@@ -123,7 +125,7 @@ func c06FromRR(rr dns.RR) (rec zone.Rec, prob string) {
 	default:
 		prob += fmt.Sprintf("unexpected Go type %T; ", rr)
 	}
-	return rec, prob
+	return rec, prob, oprob
 }
 
 // c06Env holds what a worker process needs for $INCLUDE: rendered include files as MapFS and on disk.
@@ -238,13 +240,15 @@ func c06Parse(text string, cfg c06Cfg, fsx *c06FileSet) c06Obs {
 	}
 	var o c06Obs
 	for rr, ok := zp.Next(); ok; rr, ok = zp.Next() {
-		rec, prob := c06FromRR(rr)
+		rec, prob, oprob := c06FromRR(rr)
 		o.recs = append(o.recs, rec)
 		o.prob = append(o.prob, prob)
+		o.oprob = append(o.oprob, oprob)
 	}
 	o.err = zp.Err()
 	if rr, ok := zp.Next(); ok || rr != nil {
 		o.prob = append(o.prob, "Next returned a record after it had returned (nil,false)")
+		o.oprob = append(o.oprob, "")
 		o.recs = append(o.recs, zone.Rec{})
 	}
 	return o
@@ -281,8 +285,8 @@ func c06Dump(o c06Obs) string {
 	var sb strings.Builder
 	for i, r := range o.recs {
 		fmt.Fprintf(&sb, "\n      [%d] %s", i, r)
-		if i < len(o.prob) && o.prob[i] != "" {
-			sb.WriteString(" PROBLEM: " + o.prob[i])
+		if o.prob[i] != "" || o.oprob[i] != "" {
+			sb.WriteString(" PROBLEM: " + o.oprob[i] + o.prob[i])
 		}
 	}
 	fmt.Fprintf(&sb, "\n      Err() = %v", o.err)
@@ -306,23 +310,34 @@ func c06DumpModel(m zone.Result) string {
 }
 
 // c06AgainstModel compares what the parser returned with the denotation. ctx renders the input.
-func c06AgainstModel(r *fw.R, m zone.Result, o c06Obs, ctx func() string) bool {
+// tag, when not empty, replaces the violation key (used where one known cause shows up as several kinds
+// of difference).
+func c06AgainstModel(r *fw.R, m zone.Result, o c06Obs, tag string, ctx func() string) bool {
 	fail := func(key, what string) bool {
+		if tag != "" {
+			key = tag
+		}
+		if c06Failed[key]++; c06Failed[key] > 40 {
+			r.Fail(key, "%s (details suppressed after 40 failures of this kind in this worker)", what)
+			return false
+		}
 		r.Fail(key, "%s\n   %s\n   model:%s\n   parser:%s", what, ctx(), c06DumpModel(m), c06Dump(o))
 		return false
-	}
-	for i, p := range o.prob {
-		if p != "" {
-			return fail("record/unreadable", fmt.Sprintf("record %d: %s", i, p))
-		}
 	}
 	n := len(o.recs)
 	if len(m.Recs) < n {
 		n = len(m.Recs)
 	}
+	for i, p := range o.prob {
+		if p != "" && i < n {
+			return fail("record/unreadable", fmt.Sprintf("record %d: %s", i, p))
+		}
+	}
 	for i := 0; i < n; i++ {
 		a, b := m.Recs[i], o.recs[i]
 		switch {
+		case !a.OwnerUnspec && o.oprob[i] != "":
+			return fail("record/unreadable", fmt.Sprintf("record %d: %s", i, o.oprob[i]))
 		case !a.OwnerUnspec && !rn.Equal(a.Owner, b.Owner):
 			return fail("record/owner", fmt.Sprintf("record %d: owner differs", i))
 		case !a.TTLUnspec && a.TTL != b.TTL:
@@ -346,7 +361,12 @@ func c06AgainstModel(r *fw.R, m zone.Result, o c06Obs, ctx func() string) bool {
 	case m.Err != "":
 		key := "invalid-accepted/" + m.ErrKind
 		if m.ErrKind == "missing-ttl" {
-			key += "/" + c06Shape(m.ErrLine)
+			// the parser has an explicit test for this in one line shape; keep the others apart
+			if sh := c06Shape(m.ErrLine); sh == "owner-type" {
+				key += "/owner-type"
+			} else {
+				key += "/other-shapes"
+			}
 		}
 		if len(o.recs) > len(m.Recs) {
 			return fail(key, "the program is invalid after the denoted records, but the parser returned a further record")
@@ -365,6 +385,8 @@ func c06AgainstModel(r *fw.R, m zone.Result, o c06Obs, ctx func() string) bool {
 	return true
 }
 
+var c06Failed = map[string]int{}
+
 // c06Same: two renderings of one program must give the same records and agree on error / no error.
 func c06Same(a, b c06Obs) bool {
 	if len(a.recs) != len(b.recs) || (a.err == nil) != (b.err == nil) {
@@ -375,14 +397,7 @@ func c06Same(a, b c06Obs) bool {
 		if !rn.Equal(x.Owner, y.Owner) || x.TTL != y.TTL || x.Class != y.Class || x.Type != y.Type || !x.Data.Equal(y.Data) {
 			return false
 		}
-		pa, pb := "", ""
-		if i < len(a.prob) {
-			pa = a.prob[i]
-		}
-		if i < len(b.prob) {
-			pb = b.prob[i]
-		}
-		if (pa == "") != (pb == "") {
+		if (a.prob[i] == "") != (b.prob[i] == "") || (a.oprob[i] == "") != (b.oprob[i] == "") {
 			return false
 		}
 	}
@@ -418,12 +433,16 @@ func c06DevName(d zone.Dev) string {
 // c06Renderings runs the plain rendering against the model and every rendering in devsets against the
 // plain one. It returns the number of texts parsed.
 func c06Renderings(r *fw.R, p *zone.Program, cfg c06Cfg, fsx *c06FileSet, mcfg zone.Config, devsets func(yield func([]zone.Dev))) int {
+	return c06RenderingsTag(r, p, cfg, fsx, mcfg, devsets, "")
+}
+
+func c06RenderingsTag(r *fw.R, p *zone.Program, cfg c06Cfg, fsx *c06FileSet, mcfg zone.Config, devsets func(yield func([]zone.Dev)), tag string) int {
 	dir := fsx.dirFor(cfg.inc)
 	plain, _ := zone.Render(p.Main, zone.Style{Dir: dir})
 	m := zone.Interpret(p, mcfg)
 	po := c06Parse(plain, cfg, fsx)
 	n := 1
-	c06AgainstModel(r, m, po, func() string { return fmt.Sprintf("config: %s\n   text: %q", cfg, plain) })
+	c06AgainstModel(r, m, po, tag, func() string { return fmt.Sprintf("config: %s\n   text: %q", cfg, plain) })
 	if devsets == nil {
 		return n
 	}
